@@ -309,6 +309,34 @@ def run(ctx):
             ctx.ok("R12.2", "flatten/all-" + label, "every iteration handles its item")
     ctx.assume("signs and rounding of the matrix entries are value-level and not decided; only which inputs each entry depends on, and the composition order")
 
+    # ---- R12.5 transforms are composed in floating point: rounding belongs to the final point conversion only
+    ctx.rule("R12.5", "functions that build or compose transforms (results of type Transform / matrix / vector of f64) never round: no round / floor / ceil / trunc and no float-to-integer conversion on the way - rounding an intermediate origin or matrix entry makes nested placements drift by up to a unit per level")
+    n_tf = 0
+    for f in F.fns.values():
+        if not f.id.startswith("layout21raw::geom::") or f.derived or f.kind == "Closure" or not f.body:
+            continue
+        out = (f.output or {}).get("s", "")
+        if not re.search(r"^geom::Transform$|^\[\[f64; 2\]; 2\]$|^\[f64; 2\]$", out):
+            continue
+        n_tf += 1
+        bodies = [(f, Body(f))] + [(cf, Body(cf)) for cf in F.fns.values() if cf.kind == "Closure" and cf.id.startswith(f.id + "::{closure")]
+        hits = []
+        for g_, b_ in bodies:
+            for bi, t in b_.calls():
+                nm = callee_name(t) or ""
+                if re.search(r"f64::<impl f64>::(round|floor|ceil|trunc|round_ties_even)$|::(round|floor|ceil|trunc)$", nm):
+                    hits.append((b_.site(bi), nm.split("::")[-1]))
+            for bi, blk in enumerate(b_.blocks):
+                for st in blk["st"]:
+                    if st["k"] == "assign" and st["rv"]["k"] == "cast" and st["rv"].get("ck") == "FloatToInt":
+                        hits.append((b_.site(bi), "as-integer"))
+        key = "%s/rounds" % f.short
+        if hits:
+            ctx.violation("R12.5", key, "%s builds a transform but applies %s to an intermediate value: composition is no longer exact (cascade(rotate(30), translate(3,0)) gets origin (3,1) instead of (2.598,1.5)); only the final point conversion may round" % (f.short, ", ".join(sorted({h[1] for h in hits}))), hits[0][0], key)
+        else:
+            ctx.ok("R12.5", f.short, "no rounding inside")
+    ctx.floor("R12.5", "transform_builders", n_tf, 5)
+
     # ---- R12.3 signed quantities stay signed
     ctx.rule("R12.4", "every float-to-integer conversion in the transform code is applied to a value that was rounded first (round to nearest, then convert)")
     ctx.rule("R12.3", "angles, matrix entries and coordinates are signed: the transform code contains no conversion of a float or signed integer to an unsigned integer (such a cast clamps every negative value to zero)")
